@@ -342,6 +342,7 @@ class ExecMixin(object):
         fi = FuncInfo(frame.func.module, frame.func.cls, node, parent=frame.func)
         cid = (fi.qualname, node.lineno)
         self.closures[cid] = (fi, frame)
+        self.__dict__.setdefault("closure_frames", {}).setdefault(cid, []).append(frame)
         frame.has_closure = True
         state.envs[frame.fid][node.name] = ("closure", cid)
         return [(state, NORMAL)]
